@@ -716,7 +716,7 @@ class GK(G):
     def leaf(self, kind):
         k = self.klass
         if k is not None and kind == "num" and self.chance(55):
-            fields = [f for f in k.all_fields() if f not in k.shadows()]
+            fields = [f for f in k.all_fields() if f not in k.shadows() and f != "peer"]
             if self.in_init:
                 fields = [f for f in fields if f in self.assigned]
             else:
@@ -842,6 +842,9 @@ class GK(G):
             f = self.pick(FIELD_POOL)
             if f not in k.own_fields:
                 k.own_fields.append(f)
+        if self.chance(55) and "peer" not in inherited:
+            # a field that will hold another instance (see the relay method)
+            k.own_fields.insert(self.i(0, len(k.own_fields)), "peer")
         has_init = bool(k.own_fields) or self.chance(30)
         # method set
         for m in sorted(METHOD_ARITY):
@@ -870,7 +873,7 @@ class GK(G):
             if self._ret_closure:
                 self.closure_methods.add((k.name, m))
             methods.append(mb)
-        if self.chance(40):
+        if self.chance(55):
             # a method that reads / writes / compound-assigns fields of ANOTHER object: inside a class the compiler
             # knows the fixed slot of the class's own field names, which must not be applied to a foreign receiver
             def g(stmt):
@@ -889,6 +892,26 @@ class GK(G):
             pbody.append(("return", ("var", "v")))
             methods.append(("poke", ["o", "v"], pbody))
             k.has_poke = True
+            # the same through a chain rooted at self: self.peer.<field> ... (the receiver of the last access is the
+            # peer, whatever the first link of the chain is)
+            rbody = [("expr", ("assign", ("prop", ("self",), "peer"), ("var", "o")))] if "peer" in k.all_fields() else []
+            if rbody:
+                for _ in range(self.i(1, 4)):
+                    f = self.pick(FIELD_POOL)
+                    base = ("prop", ("self",), "peer") if self.chance(70) else ("at", "peer")
+                    tgt = ("prop", base, f)
+                    c = self.i(0, 9)
+                    if c < 4:
+                        rbody.append(g(("expr", ("assign", tgt, ("var", "v")))))
+                    elif c < 7:
+                        rbody.append(g(("expr", ("opassign", self.pick(["+", "-", "*"]), tgt, ("var", "v")))))
+                    elif c < 9:
+                        rbody.append(g(("print", tgt)))
+                    else:
+                        rbody.append(g(("print", ("call", ("prop", base, self.pick(sorted(METHOD_ARITY))), []))))
+                rbody.append(("return", ("var", "v")))
+                methods.append(("relay", ["o", "v"], rbody))
+                k.has_relay = True
         statics = []
         if self.chance(30):
             sname = "s%d" % self.i(1, 2)
@@ -897,6 +920,13 @@ class GK(G):
         self.classes.append(k)
         self.declare(Var(name, "class", False))
         return ("class", name, parent.name if parent else None, init, methods, statics)
+
+    def has_relay(self, k):
+        while k is not None:
+            if getattr(k, "has_relay", False):
+                return True
+            k = k.parent
+        return False
 
     def has_poke(self, k):
         while k is not None:
@@ -1000,11 +1030,12 @@ class GK(G):
                 if st_:
                     sname, n = self.pick(st_)
                     out.append(("print", ("call", ("prop", ("var", k.name), sname), [self.expr("num", 1) for _ in range(n)])))
-            elif c < 93:
+            elif c < 89:
                 out.append(("print", ("call", ("prop", ("call", ("prop", ov, "cls"), []), "name"), [])))
             elif c < 97 and any(self.has_poke(kk) for _, kk in objs):
                 po, pk = self.pick([(oo, kk) for oo, kk in objs if self.has_poke(kk)])
-                out.append(guarded(("expr", ("call", ("prop", ("var", po), "poke"), [ov, self.expr("num", 1)]))))
+                meth = "relay" if (self.has_relay(pk) and self.chance(50)) else "poke"
+                out.append(guarded(("expr", ("call", ("prop", ("var", po), meth), [ov, self.expr("num", 1)]))))
                 for f in FIELD_POOL:
                     if f not in k.shadows():
                         out.append(guarded(("print", ("prop", ov, f))))
@@ -1259,11 +1290,54 @@ class GE(G):
         self.declare(Var(b, "num", True))
         return out
 
+    def callback_try_stmt(self):
+        """A native runs a callback whose own body holds the try: the handler belongs to the callback's frame, the
+        native call must go on with the next element after the catch, and the callback's result must stay its own."""
+        k = float(self.i(1, 4))
+        c = self.i(0, 9)
+        if c < 5 or not self.raisers:
+            cls = self.err_class()
+            src = [("raise", ("call", ("var", cls), [("str", "cb%d" % self.i(0, 9))]))]
+        elif c < 8:
+            name, np_, cls = self.pick(self.raisers)
+            src = [("expr", ("call", ("var", name), [("num", 0.0) for _ in range(np_)]))]
+        else:
+            src, cls = [("expr", ("index", ("list", []), ("num", 3.0)))], "IndexError"
+        anc = self.ancestors(cls)
+        cc = self.i(0, 9)
+        ccls = None if cc < 4 else (self.pick(anc) if cc < 8 else "FormatError")
+        ev = self.fresh("ce")
+        inner_try = ("try", [("if", ("bin", "==", ("var", "x"), ("num", k)), src, None),
+                             ("print", ("interp", ["cb ", ("var", "x")]))],
+                     [(ev, ccls, [("print", ("str", "cb caught")), ("return", ("un", "-", ("num", 1.0)))])])
+        lam = ("lambda", ["x"], ("block", [inner_try, ("return", ("bin", "*", ("var", "x"), ("num", 10.0)))]))
+        it = ("call", ("prop", ("list", [("num", 1.0), ("num", 2.0), ("num", 3.0), ("num", 4.0)]), "iter"), [])
+        form = self.i(0, 5)
+        if form == 0:
+            e = ("call", ("prop", ("call", ("prop", it, "map"), [lam]), "list"), [])
+        elif form == 1:
+            e = ("call", ("prop", ("call", ("prop", it, "filter"), [lam]), "list"), [])
+        elif form == 2:
+            e = ("call", ("prop", it, "each"), [lam])
+        elif form == 3:
+            e = ("call", ("prop", it, self.pick(["all", "any"])), [lam])
+        elif form == 4:
+            lam2 = ("lambda", ["a", "x"], ("block", [inner_try, ("return", ("bin", "+", ("var", "a"), ("var", "x")))]))
+            e = ("call", ("prop", it, "reduce"), [("num", 0.0), lam2])
+        else:
+            e = ("call", ("prop", ("call", ("prop", ("call", ("prop", it, "map"), [lam]), "filter"),
+                                  [("lambda", ["y"], ("expr", ("bin", ">", ("var", "y"), ("num", 0.0))))]), "list"), [])
+        ov = self.fresh("oe")
+        return ("try", [("print", e)], [(ov, None, [("print", ("call", ("prop", ("call", ("prop", ("var", ov), "cls"), []), "name"), []))])])
+
     def stmt(self, depth):
         if self.chance(30) and self.stmt_budget > 0:
             self.stmt_budget -= 2
             t = self.try_stmt(depth)
             return [t] + self.after_try()
+        if self.chance(6) and self.stmt_budget > 0:
+            self.stmt_budget -= 2
+            return [self.callback_try_stmt()] + self.after_try()
         return G.stmt(self, depth)
 
     def scenario(self):
